@@ -192,7 +192,10 @@ theorem genPrep_slots (c : Circuit F) (p : Prep) (h : genPrep c = some p) :
 /-! ## Row constraints on cells -/
 
 /-- The accumulator the ALU table uses for a Horner row: the previous ALU row's `out` cell when
-that row is a Horner step too, zero otherwise (a run of Horner steps starts after a separator). -/
+that row is a Horner step too, zero otherwise (a run of Horner steps starts after a separator row,
+whose lane-0 `out` cell the table pins to zero: `C11.sep_out_zero`, the constraint added by the
+repair of finding F22 — before it that cell was free and this definition was not what the table
+enforced). -/
 def prevAcc (prev : Option (Nat × F)) : F :=
   match prev with
   | some (_, pv) => pv
